@@ -666,8 +666,8 @@ def shard_fn(specs):
 
 def run(ctx):
     types = all_types(ctx.tier)
-    # heavy types (large blobs / full scaled grids) are spread by interleaving
-    n = 64
+    # heavy types (large blobs / full scaled grids, containers of strings) are spread by interleaving
+    n = 256
     shards = [types[i::n] for i in range(n)]
     ctx.pmap(shard_fn, [s for s in shards if s], name='roundtrip')
     ctx.rule = ('enumeration: every type of the catalogue (all leaf kinds with boundary limits, containers to depth 3, plus 12 '
